@@ -188,11 +188,13 @@ class Ids:
     def __init__(self):
         self.tdesc, self.strs, self.floats, self.names = [], [''], [], []
         self.raw = {'sub': [], 'spw': []}
+        self.objs = {'sub': [], 'spw': []}
         self.canon = None
 
-    def struct_id(self, which, key):
+    def struct_id(self, which, key, obj=None):
         if self.canon is None:
             self.raw[which].append(key)
+            self.objs[which].append(obj)
             return len(self.raw[which]) - 1
         if key not in self.raw[which]:
             return -1 - Ids.gid(self.strs, 'unknown %s: %r' % (which, key))
@@ -213,14 +215,28 @@ class Ids:
                 Ids.gid(self.strs, 'product:' + prod), Ids.gid(self.floats, bw)]
 
     def finish(self, cs):
-        """canonical ids from the model; python's own comparison of the structures must agree with them (tie)"""
+        """The value ids used from here on are the SPEC's: two values are the same iff all their public attributes
+        agree (position of the first such entry).  Against them: katdal's own comparison of the objects (== and hash:
+        what concatenate_categorical merges by) = the property; the model's ids (wire_194) against katdal's = the tie."""
         out = cs.ctx.model([[194, [[self.sub_wire(k) for k in self.raw['sub']], [self.spw_wire(k) for k in self.raw['spw']]]]])[0]
-        self.canon = {'sub': out[0], 'spw': out[1]}
-        for which in ('sub', 'spw'):
-            mine = [self.raw[which].index(k) for k in self.raw[which]]
-            if mine != self.canon[which]:
-                cs.disagree('stage=ident;what=%s_ids_vs_model' % which, mine, self.canon[which],
-                            'the model does not identify exactly the structurally equal %s values' % which, kind='tie')
+        model = {'sub': out[0], 'spw': out[1]}
+        self.canon = {}
+        for which, text in (('sub', 'subarrays'), ('spw', 'spectral windows')):
+            raw, objs = self.raw[which], self.objs[which]
+            self.canon[which] = [raw.index(k) for k in raw]
+            for i in range(len(raw)):
+                for j in range(i):
+                    impl = bool(objs[i] == objs[j]) and hash(objs[i]) == hash(objs[j])
+                    if impl != (raw[i] == raw[j]):
+                        cs.disagree('stage=ident;what=%s_%s' % (which, 'equal_but_not_identical' if impl else 'identical_but_not_equal'),
+                                    impl, model[which][i] == model[which][j],
+                                    ('%s that differ in a public attribute compare equal (and will be merged)' if impl else
+                                     'identical %s do not compare equal (and will not be merged)') % text,
+                                    spec=raw[i] == raw[j], entries=[repr(raw[j]), repr(raw[i])])
+                    elif impl != (model[which][i] == model[which][j]):
+                        cs.disagree('stage=ident;what=%s_eq_vs_model' % which, impl, model[which][i] == model[which][j],
+                                    'the model of %s.__eq__ differs from the implementation' % ('Subarray' if which == 'sub' else 'SpectralWindow'),
+                                    kind='tie', entries=[repr(raw[j]), repr(raw[i])])
         if out[2] != [NAN, -1, 0, 0, -8888]:
             cs.disagree('stage=ident;what=dummy_table_vs_model', out[2], [NAN, -1, 0, 0, -8888],
                         'the dummy values read from dummy_sensor_getter are not nan / -1 / \'\' / False / None', kind='tie')
@@ -263,9 +279,9 @@ def obs_vid(ids, name, v):
     if name in ('Observation/target',):
         return Ids.gid(ids.tdesc, v.description)
     if name == 'Observation/subarray':
-        return ids.struct_id('sub', sub_key(v))
+        return ids.struct_id('sub', sub_key(v), v)
     if name == 'Observation/spw':
-        return ids.struct_id('spw', spw_key(v))
+        return ids.struct_id('spw', spw_key(v), v)
     if name == 'Observation/scan_state':
         return c02.STATES.index(str(v))
     if name == 'Observation/label':
@@ -859,6 +875,12 @@ def stage_select(cs, c, parts, twins, twins_info, twins_arrays, sorted_idx, wire
         env = menv_wire(ob, ids, name_ids, twins)
         histories = [[[x for x in c02.gen_call(hrng, ob) if x[0] not in ('spw', 'subarray')] for _ in range(hrng.randint(1, 5))]
                      for _ in range(nhist)]
+        # every run meets every criterion that reads the subarray's product list / the window's channels, on every pair
+        battery = []
+        for key in ('pol', 'ants', 'inputs', 'corrprods', 'freqrange'):
+            v, wv, f = c02.gen_criterion(hrng, ob, key)
+            battery.append([(key, v, wv, f)])
+        histories.append(battery)
         outs = ctx.model([[193, [wire_parts, env, sw[0], sw[1], [c02.wire_call(cl) for cl in h]]] for h in histories])
         members, keeps = [], None
         for out in outs:
@@ -932,12 +954,13 @@ def stage_select(cs, c, parts, twins, twins_info, twins_arrays, sorted_idx, wire
             if icode == 1:
                 continue
             got = observe_masks(d)
-            if got != [mo[1], mo[2], mo[3]]:
+            whole_off = got != [mo[1], mo[2], mo[3]]
+            if whole_off:
+                # the history ends here, but first the parts are compared with their twins: that is the property
                 cs.disagree('stage=' + tag + ';keys=%s;what=whole_masks_vs_model' % keys, got, [mo[1], mo[2], mo[3]],
                             'selection masks of the whole differ from the model', kind='tie', **at)
-                break
             cur = c02.observe(ob, d)
-            exp = c02.expected_from_masks(ob, mo[1], mo[2], mo[3])
+            exp = c02.expected_from_masks(ob, got[0], got[1], got[2])
             badk = [k for k in c02.PUBLIC if cur[k] != exp[k]]
             if badk:
                 cs.disagree('stage=' + tag + ';keys=%s;what=public:%s' % (keys, ','.join(badk)), {k: cur[k] for k in badk},
@@ -986,11 +1009,11 @@ def stage_select(cs, c, parts, twins, twins_info, twins_arrays, sorted_idx, wire
                                 'the whole selects in a part something else than the translated criteria select on the part alone',
                                 spec=twm, part=pi, tcall=repr(tcall), **at)
                     ok = False
-                elif pm[pi][0] != 0 or twm != pm[pi][1:]:
+                elif not whole_off and (pm[pi][0] != 0 or twm != pm[pi][1:]):
                     cs.disagree('stage=' + tag + ';keys=%s;what=part_vs_model' % keys, twm, pm[pi], 'part masks differ from the model', kind='tie',
                                 part=pi, **at)
                     ok = False
-            if not ok:
+            if not ok or whole_off:
                 break
             kept_parts = sum(1 for t in tks if any(t))
             ctx.note_case((cs.cseed, hn, n) if sw is None else (cs.cseed, 'multi', sw, hn, n), nontrivial=len(tks) >= 2 and kept_parts >= 2 and not all(got[0]),
